@@ -20,11 +20,11 @@ import (
 // verifPair is a mirrored composite over two model replicas, the real local
 // replicator in both directions, and a chosen alternation state.
 type verifPair struct {
-	objs   []verifstub.Object
-	a, b   *verifstub.Model
-	ba     *mirroredBlobAccess
-	first  *verifstub.Model // replica the next Get consults first
-	second *verifstub.Model
+	objs                  []verifstub.Object
+	a, b                  *verifstub.Model
+	ba                    *mirroredBlobAccess
+	first                 *verifstub.Model // replica the next Get consults first
+	second                *verifstub.Model
 	firstName, secondName string
 	// presence before the operation (symbolic terms)
 	preA, preB []bool
